@@ -423,8 +423,8 @@ func c02Gen(t *rapid.T) c02Case {
 
 	nh := rapid.IntRange(1, 6).Draw(t, "nhist")
 	for i := 0; i < nh; i++ {
-		op := rapid.SampledFrom([]string{"introspect", "introspect", "introspect_ext", "garbage", "age", "age", "replay", "second"}).Draw(t, "op")
-		c.History = append(c.History, c02Op{Op: op, Arg: rapid.IntRange(0, 11).Draw(t, "oparg")})
+		op := rapid.SampledFrom([]string{"introspect", "introspect", "introspect_ext", "garbage", "age", "age", "replay", "second", "replay_after"}).Draw(t, "op")
+		c.History = append(c.History, c02Op{Op: op, Arg: rapid.IntRange(0, 55).Draw(t, "oparg")})
 	}
 	return c
 }
